@@ -219,7 +219,8 @@ def run(ctx):
         cid = "v%d" % i
         lines, outs, recs, log = serverlib.gen_server_case(real, rng, cid, n_iter=rng.choice([40, 80, 120]), n_clients=rng.choice([2, 3, 4]),
                                                            hostile=rng.choice([0.1, 0.4]), act_p=rng.choice([0.1, 0.3]),
-                                                           collide=0.5, silent=0.05, leave=0.05)
+                                                           collide=0.5, silent=0.05, leave=0.05, stack=rng.choice([0.0, 0.2]),
+                                                           mtu=rng.choice([1500, 1500, 512, 400]))
         cases.append(lines)
         outputs[cid] = outs
         extra[cid] = (recs, log)
